@@ -2,7 +2,7 @@ CONSTANTS
  Confs <- MCConfs
  FixWaitErr = FALSE
  Reduce = TRUE
- MCShapes = {"img", "dup"}
+ MCShapes = {"img", "empty", "schema1", "inline"}
  MCPairs = {"tworeg", "samereg", "samerepo", "reg2dir", "dir2reg", "dir2dir"}
  MCOpts <- MCOptsDefault
  MCFeats <- MCFeatsMount
